@@ -128,7 +128,8 @@ def history_case(rng, cid, family):
     return Case(cid, ops, dict(family=family))
 
 
-AUTH_HOSTS = [b"a.com", b"x.a.com", b"x.y.a.com", b"b.com", b"A.com", b"X.A.COM", b"", b".a.com", b"[::1]", b"a.com.", b"x.a.com.", b"com"]
+AUTH_HOSTS = [b"a.com", b"x.a.com", b"x.y.a.com", b"b.com", b"A.com", b"X.A.COM", b"", b".a.com", b"[::1]", b"a.com.", b"x.a.com.", b"com",
+              b"x.*.a.com", b"*.a.com", b"fx.a.com", b"xa.com"]
 AUTH_DECOR = [b"", b"", b":443", b":", b":80a", b":8443", b".", b".:443", b":443.", b"..", b":00"]
 AUTH_NAMES = [b"a.com", b"*.a.com", b"f*.a.com", b"*.*.a.com", b"*a.com", b"A.com", b"x.a.com", b"*.y.a.com", b"b.com", b"*.com", b"*.", b"*"]
 
